@@ -11,6 +11,8 @@
 (*  agg   arrow_arith::aggregate::*, arrow_arith::aggregate::bit_*         *)
 (*  bool  arrow_arith::boolean::*                                          *)
 (*  arity arrow_arith::arity::{unary,binary,try_unary,try_binary}          *)
+(*  mfp   arrow_arith::arithmetic::multiply_fixed_point{,_checked}         *)
+(*  bitw  arrow_arith::bitwise::* (8- and 16-bit integers)                 *)
 (*                                                                         *)
 (* Values: TLC integers for 8/16-bit integer types, wires (BigNum) above,  *)
 (* sequences of wires for the multi-field interval types; validity as 0/1  *)
@@ -81,9 +83,18 @@ Rule(op, lt, rt) ==
          [kind |-> "ivmul", w |-> 0, sg |-> 1, ot |-> lt]
     [] lt.f = "int" /\ lt.w = 64 /\ lt.sg = 1 /\ rt.f \in {"dt", "mdn"} /\ op = "mul" ->
          [kind |-> "ivmulr", w |-> 0, sg |-> 1, ot |-> rt]
+    [] lt.f = "date32" /\ rt.f = "dt" /\ op \in PlusMinus ->
+         [kind |-> "d32dt", w |-> 32, sg |-> 1, ot |-> lt]
+    [] lt.f = "date64" /\ rt.f = "dt" /\ op \in PlusMinus ->
+         [kind |-> "d64dt", w |-> 64, sg |-> 1, ot |-> lt]
+    [] lt.f = "ts" /\ rt.f = "dt" /\ op \in PlusMinus ->
+         [kind |-> "tsdt", w |-> 64, sg |-> 1, ot |-> lt]
     [] OTHER -> None
 
 (* ------------------------------ bin events ------------------------------- *)
+Sgn(op) == IF op \in AddOps THEN 1 ELSE -1
+IvBig(x) == [j \in 1..Len(x) |-> FromWire(x[j])]
+UnitExp(u) == CASE u = "s" -> 0 [] u = "ms" -> 3 [] u = "us" -> 6 [] u = "ns" -> 9
 At(col, isScalar, i) == IF isScalar THEN col[1] ELSE col[i]
 WitAt(ev, i) == IF i <= Len(ev.wit) THEN FromWire(ev.wit[i]) ELSE Zero
 
@@ -101,6 +112,9 @@ BinRowErr(ev, r, i) ==
        [] r.kind = "iv" -> \E j \in 1..Len(a) : BRowErr(o, IvWidths(ev.lt.f)[j], 1, FromWire(a[j]), FromWire(b[j]))
        [] r.kind = "ivmul" -> \E j \in 1..Len(a) : ~BIn(IvWidths(ev.lt.f)[j], 1, Mul(FromWire(a[j]), FromWire(b)))
        [] r.kind = "ivmulr" -> \E j \in 1..Len(b) : ~BIn(IvWidths(ev.rt.f)[j], 1, Mul(FromWire(b[j]), FromWire(a)))
+       [] r.kind = "d32dt" -> Date32Shift(FromWire(a), Sgn(ev.op), IvBig(b)).err
+       [] r.kind = "d64dt" -> Date64Shift(FromWire(a), Sgn(ev.op), IvBig(b)).err
+       [] r.kind = "tsdt" -> TsShift(FromWire(a), UnitExp(ev.lt.u), Sgn(ev.op), IvBig(b)).err
        [] r.kind = "flt" -> FALSE
 
 BinRowVal(ev, r, i) ==
@@ -117,6 +131,9 @@ BinRowVal(ev, r, i) ==
        [] r.kind = "iv" -> out = [j \in 1..Len(a) |-> ToWire(BExact(o, FromWire(a[j]), FromWire(b[j])))]
        [] r.kind = "ivmul" -> out = [j \in 1..Len(a) |-> ToWire(Mul(FromWire(a[j]), FromWire(b)))]
        [] r.kind = "ivmulr" -> out = [j \in 1..Len(b) |-> ToWire(Mul(FromWire(b[j]), FromWire(a)))]
+       [] r.kind = "d32dt" -> out = ToWire(Date32Shift(FromWire(a), Sgn(ev.op), IvBig(b)).v)
+       [] r.kind = "d64dt" -> out = ToWire(Date64Shift(FromWire(a), Sgn(ev.op), IvBig(b)).v)
+       [] r.kind = "tsdt" -> out = ToWire(TsShift(FromWire(a), UnitExp(ev.lt.u), Sgn(ev.op), IvBig(b)).v)
        [] r.kind = "flt" -> TRUE          \* IEEE-754 results are not modelled (DESIGN.md 4)
 
 (* the filler logged under a null row                                        *)
@@ -169,7 +186,10 @@ BinSupported(ev) ==
 BinKF(ev) ==
   LET r == Rule(ev.op, ev.lt, ev.rt)
       o == DecOp(ev.op)
-  IN IF r.kind # "dec" \/ TypeErr(ev, r) \/ TypeFree(ev, r) \/ ~ev.err \/ BinExpectErr(ev, r) THEN ""
+  IN IF r.kind # "dec" \/ TypeErr(ev, r) \/ TypeFree(ev, r) THEN ""
+     ELSE IF o = "rem" /\ DecMultiplierOverflow(ev.op, r.w, ev.lt.s, ev.rt.s)
+          THEN "C12-decimal-rem-multiplier-wraps"       \* pow_wrapping: the power of ten itself wraps
+     ELSE IF ~ev.err \/ BinExpectErr(ev, r) THEN ""
      ELSE IF o \in {"add", "sub", "div", "rem"} /\ ev.ecls = "overflow" /\
              (\/ DecMultiplierOverflow(ev.op, r.w, ev.lt.s, ev.rt.s)
               \/ \E i \in 1..BinLen(ev) : BinValid(ev, i) /\
@@ -309,6 +329,37 @@ ArityOK(ev) ==
                                    /\ \E j \in 1..Len(ev.calls) : ev.calls[j] = i
                   ELSE ev.ov[i] = 0 /\ ev.out[i] = 0
 
+(* ------------------------------- mfp events ------------------------------ *)
+(* arrow_arith::arithmetic::multiply_fixed_point{,_checked}                    *)
+MfpOK(ev) ==
+  LET n == Len(ev.a)
+      t == FixedPointType(ev.lt.p, ev.lt.s, ev.rt.p, ev.rt.s, ev.req)
+      valid(i) == ev.av[i] = 1 /\ ev.bv[i] = 1
+      val(i) == FixedPointVal(FromWire(ev.a[i]), FromWire(ev.b[i]), ev.lt.s, ev.rt.s, ev.req)
+      expErr == t.err \/ Len(ev.b) # n \/
+                (ev.op = "checked" /\ \E i \in 1..n : valid(i) /\ ~BIn(128, 1, val(i)))
+  IN /\ ev.ecls # "panic"
+     /\ IF expErr THEN ev.err
+        ELSE /\ ~ev.err /\ ev.ot.p = t.p /\ ev.ot.s = t.s
+             /\ Len(ev.out) = n /\ Len(ev.ov) = n
+             /\ \A i \in 1..n :
+                  IF valid(i) THEN /\ ev.ov[i] = 1 /\ IsWire(ev.out[i])
+                                   /\ IF ev.op = "checked" THEN ev.out[i] = ToWire(val(i))
+                                      ELSE BWrapOK(128, 1, val(i), FromWire(ev.out[i]), FromWire(ev.wit[i]))
+                  ELSE ev.ov[i] = 0 /\ ev.out[i] = <<0>>
+
+(* ------------------------------ bitw events ------------------------------ *)
+(* arrow_arith::bitwise::* on 8- and 16-bit integers (TLC integers)            *)
+BitwOK(ev) ==
+  LET n == Len(ev.a)
+      valid(i) == ev.av[i] = 1 /\ ev.bv[i] = 1
+  IN /\ ev.ecls # "panic"
+     /\ IF Len(ev.b) # n THEN ev.err
+        ELSE /\ ~ev.err /\ Len(ev.out) = n /\ Len(ev.ov) = n
+             /\ \A i \in 1..n :
+                  IF valid(i) THEN ev.ov[i] = 1 /\ ev.out[i] = IBitwise(ev.op, ev.w, ev.sg, ev.a[i], ev.b[i])
+                  ELSE ev.ov[i] = 0 /\ ev.out[i] = 0
+
 (* --------------------------------- driver -------------------------------- *)
 Init == l = 1
 Next ==
@@ -323,5 +374,7 @@ Next ==
        [] ev.k = "agg2"  -> Judge(Agg2OK(ev), l, ev.op)
        [] ev.k = "bool"  -> Judge(BoolOK(ev), l, ev.op)
        [] ev.k = "arity" -> Judge(ArityOK(ev), l, ev.fn)
+       [] ev.k = "mfp"   -> Judge(MfpOK(ev), l, "mfp")
+       [] ev.k = "bitw"  -> Judge(BitwOK(ev), l, ev.op)
 Spec == Init /\ [][Next]_l
 =============================================================================
